@@ -90,6 +90,15 @@ class Prov:
             d += 1
         return d
 
+    def origins_at(self, fn, e, at):
+        """origins of e as seen at node `at` of fn: assignments that cannot run on a path through `at` (the other
+        arm of a match / if) are left out.  (The analysis is flow-insensitive otherwise.)"""
+        from . import fanout as _fanout
+
+        p2 = Prov(self.prog, self.max_depth, self.opaque)
+        p2._at = (fn.def_path, at, _fanout.exclusive)
+        return p2.origins(fn, e)
+
     def origins(self, fn, e, ctx=0, stack=()):
         """set of (root, projs).  root: ('param', def, idx) | ('const', path) | ('lit', v)
         | ('ctor', path, fn_def, node_id, ctx) | ('call', path, fn_def, node_id) | ('closure', ..) | ('op', ..) | ('unit',)"""
@@ -242,6 +251,9 @@ class Prov:
         elif o[0] == "closure_param":
             out |= self._closure_param(fn, o[1], o[2], o[3], ctx, stack)
         for a in fn.assignments_to(lid):
+            at_ = getattr(self, "_at", None)
+            if at_ is not None and at_[0] == fn.def_path and at_[2](fn, a, at_[1]):
+                continue  # in a branch that excludes the point of interest
             if a["k"] == "Assign":
                 out |= self.origins(fn, a["r"], ctx, stack)
             else:
